@@ -486,4 +486,59 @@ theorem runQTasks_sublist (l : Lim) (s : LState) (qs : List QTask) :
           · simp only [hc, if_false, handleRunHookN, hookRun, List.singleton_append]
             exact List.Sublist.cons_cons _ h2
 
+/-! ## Several hooks in one directory; the other tasks of the queues -/
+
+/-- a `Wait` of hook `k` leaves the limiter state of every other hook as it was -/
+theorem reserveAt_other (lims : List Lim) (ss : List LState) (k j : Nat) (t : Int) (h : k ≠ j) :
+    (reserveAt lims ss k t).1[j]? = ss[j]? := by
+  unfold reserveAt
+  cases lims[k]? with
+  | none => rfl
+  | some l =>
+    cases ss[k]? with
+    | none => rfl
+    | some s => simp [List.getElem?_set_ne h]
+
+/-- … and moves the state of hook `k` as a `Wait` on its own limiter does -/
+theorem reserveAt_self (lims : List Lim) (ss : List LState) (k : Nat) (t : Int) (l : Lim) (s : LState)
+    (hl : lims[k]? = some l) (hs : ss[k]? = some s) :
+    (reserveAt lims ss k t).1[k]? = some (reserve l s t).1 ∧ (reserveAt lims ss k t).2 = (reserve l s t).2 := by
+  obtain ⟨hlt, he⟩ := List.getElem?_eq_some_iff.mp hs
+  simp [reserveAt, hl, hlt, he]
+
+/-- The grants of hook `j` of a hooks directory, whatever the other hooks do meanwhile, are the grants of
+its own limiter for its own requests. -/
+theorem setGrants_eq (lims : List Lim) (j : Nat) (l : Lim) (hl : lims[j]? = some l) (rs : List (Nat × Int)) :
+    ∀ (ss : List LState) (s : LState), ss[j]? = some s →
+      setGrants lims j ss rs = grants l s ((rs.filter fun r => r.1 == j).map (·.2)) := by
+  induction rs with
+  | nil => intro ss s _; simp [setGrants, grants]
+  | cons r rs ih =>
+    intro ss s hs
+    obtain ⟨k, t⟩ := r
+    by_cases hk : k = j
+    · subst hk
+      obtain ⟨h1, h2⟩ := reserveAt_self lims ss k t l s hl hs
+      have := ih _ _ h1
+      simp only [setGrants, if_true, h2, this, List.filter_cons, beq_self_eq_true, List.map_cons, grants]
+      cases hr : reserve l s t with
+      | mk s' g => cases g <;> simp
+    · have h1 : (reserveAt lims ss k t).1[j]? = some s := by rw [reserveAt_other lims ss k j t hk]; exact hs
+      have := ih _ _ h1
+      have hb : (k == j) = false := by simp [hk]
+      simp [setGrants, hk, this, hb]
+
+/-- Tasks that are not `HookRun`s take no part: the process starts of a mixed task list are those of its
+`HookRun` tasks on the one limiter the hook was loaded with. -/
+def OpTask.hookRun? : OpTask → Option QTask
+  | .hookRun q => some q
+  | _ => none
+
+theorem runOps_eq_runQTasks (l : Lim) (s : LState) (os : List OpTask) :
+    runOps l s os = runQTasks l s (os.filterMap OpTask.hookRun?) := by
+  induction os generalizing s with
+  | nil => simp [runOps, runQTasks]
+  | cons o os ih =>
+    cases o <;> simp [runOps, opStep, OpTask.hookRun?, runQTasks, ih, List.filterMap_cons]
+
 end ShellOp.RateLimit
